@@ -129,7 +129,8 @@ impl Property for C04 {
          last_position() == H after every call and restart. Then crash points are ENUMERATED over the recorded I/O trace \
          (every effect boundary + byte cuts): after recovery every surviving queue must have last_position in {H, H'} (H' \
          also counts the in-flight call), append(None) must return last_position+1, a retry of last_position must be a \
-         no-op and an older explicit position must be rejected as Past. evaluations = calls checked + crash images \
+         no-op, an older explicit position must be rejected as Past, and after one more restart every queue must still \
+         report the position just assigned. evaluations = calls checked + crash images \
          probed. non-trivial = an append (live or after recovery) on a queue that was empty while >= 1 WAL file was \
          unlinked and >= 1 restart/crash happened since it became empty; distinct = hash(history, op or crash point, queue)."
             .to_string()
@@ -334,7 +335,30 @@ impl Property for C04 {
                 }
             }
             let _ = driver.tracer.feed(mrecordlog::verif_hooks::take_events());
+            // positions handed out after the recovery must survive a further restart ("never handed out again")
+            let assigned: Vec<(String, Option<u64>)> = {
+                let log = driver.log.as_ref().unwrap();
+                log.list_queues().map(|name| (name.to_string(), last_position(log, name).ok().flatten())).collect()
+            };
             driver.close()?;
+            match crate::recover::recover_dir(&crash_dir, case.policy) {
+                Ok(mut again) => {
+                    for (name, hi) in &assigned {
+                        let now = again.driver.log.as_ref().and_then(|log| last_position(log, name).ok()).flatten();
+                        if now != *hi {
+                            again.driver.close()?;
+                            return Err(exec.failure(
+                                format!("{where_}: after recovery, probe appends and one more restart, last_position({name:?}) = {now:?} but position {hi:?} had been assigned: it would be handed out again"),
+                                "position-reused-after-recovery-and-restart",
+                                extra,
+                            ));
+                        }
+                    }
+                    again.driver.close()?;
+                }
+                Err(crate::recover::RecoverError::Engine(msg)) => return Err(CaseError::Engine(msg)),
+                Err(_) => env.class("crash:second-open-failed-skipped"),
+            }
             Ok(())
         })?;
         env.scratch.remove(&dir);
